@@ -49,6 +49,21 @@ def factory_pipelines(tier, seed):
                 K = ProblemKind(set(feats), version=base.version)
             except Exception:  # noqa
                 continue
+            # assumption of the unit CompilersPipeline.compile: resulting_problem_kind is monotone in the kind
+            K2 = ProblemKind(set(feats) | set(rng.sample(allf, rng.randint(1, 4))), version=base.version)
+            for _, c in classes:
+                for ck in cks_all:
+                    if not c.supports_compilation(ck):
+                        continue
+                    try:
+                        r1, r2 = c.resulting_problem_kind(K, ck), c.resulting_problem_kind(K2, ck)
+                    except Exception:  # noqa
+                        continue
+                    evals += 1
+                    if not (r1 <= r2):
+                        failures.append({"what": f"{c.__name__}.resulting_problem_kind is not monotone in the problem kind [{ck.name}]",
+                                         "concrete": {"kind": sorted(K.features), "larger_kind": sorted(K2.features)},
+                                         "observed": sorted(set(r1.features) - set(r2.features))})
             # the request: mostly compilation kinds some registered compiler can take at that point of the (recomputed) chain, so that
             # long pipelines are actually selected; sometimes an arbitrary one, so that refusals are exercised too
             cks, k = [], K
@@ -362,6 +377,111 @@ class GetEnginePipeline(Unit):
             st.oblige(nm, f)
 
 
-UNITS = [EngineSatisfiesConditions(), GetEngineClass(), GetEnginePipeline()]
+# ------------------------------------------------------------------------------------------- the pipeline run on a problem
+import unified_planning.engines.compilers.compilers_pipeline as _cp
+from unified_planning.exceptions import UPUsageError as _Usage
+PROB, RES, MB, PBC, FN = Ref("Problem09"), Ref("CompilerResult09"), Ref("MapBack09"), Ref("PlanBackConversion09"), Ref("Callable09")
+for _t in (PROB, RES, MB, PBC):
+    _t.null = z3.Const(_t.name + ".None", _t.z3sort())
+PROB.fields["kind"] = PK
+RES.fields.update({"problem": PROB, "map_back_action_instance": MB, "plan_back_conversion": PBC})
+ENG.fields["name"] = Str
+SUBKIND = z3.Function("kind<=", _K, _K, z3.BoolSort())
+QN_PC = "unified_planning.engines.compilers.compilers_pipeline.CompilersPipeline.compile"
+
+
+def kind_axioms():
+    a, b, c = z3.Consts("k1!09 k2!09 k3!09", _K)
+    e, ck = z3.Const("e!09", _E), z3.Const("c!09", _C)
+    return [z3.ForAll([a], SUBKIND(a, a)),
+            z3.ForAll([a, b, c], z3.Implies(z3.And(SUBKIND(a, b), SUBKIND(b, c)), SUBKIND(a, c))),
+            # Engine.supports(kind) is `kind <= supported_kind()` in every compiler of the library: downward closed
+            z3.ForAll([e, a, b], z3.Implies(z3.And(SUP(e, b), SUBKIND(a, b)), SUP(e, a))),
+            # resulting_problem_kind is monotone in the kind (checked on generated kinds by the bounded layer)
+            z3.ForAll([e, ck, a, b], z3.Implies(SUBKIND(a, b), SUBKIND(RPK(e, a, ck), RPK(e, b, ck))))]
+
+
+class PipelineCompile(Unit):
+    prop = "C09"
+    name = "CompilersPipeline.compile"
+    doc = ("for a pipeline as the factory builds it (previous unit) run on a problem of the kind it was selected for: ASSUMING every stage keeps the "
+           "first sentence of C09 (kind of its result <= its declared resulting kind: bounded layer), no stage is ever handed a problem it does not "
+           "support -- the pipeline never raises 'cannot handle this kind of problem' -- for any number of stages; the result carries a way back "
+           "(action map when every stage has one, otherwise the composed plan conversions)")
+    allowed_raises = ()
+
+    def target(self):
+        return _cp.CompilersPipeline.compile
+
+    def configure(self, eng):
+        eng.axioms += kind_axioms()
+        unit = self
+        ENG.methods["supports"] = lambda e, st, sv, a, k: iter([(st, SBool(SUP(CLS(sv.z), a[0].z)))])
+
+        def compile_(e, st, sv, a, k):
+            p = a[0]
+            kind = B._uf("Problem09.kind", PROB.z3sort(), _K)
+            st.oblige("a stage is only asked to compile a problem of a kind it supports", SUP(CLS(sv.z), kind(p.z)))
+            r = RES.fresh("res")
+            rp = B._uf("CompilerResult09.problem", RES.z3sort(), PROB.z3sort())(r.z)
+            rpbc = B._uf("CompilerResult09.plan_back_conversion", RES.z3sort(), PBC.z3sort())(r.z)
+            dflt = z3.Select(e.heap_field(st, ENG, "_default"), sv.z)
+            st.assume(r.z != RES.null,
+                      z3.Implies(rp != PROB.null, z3.And(SUBKIND(kind(rp), RPK(CLS(sv.z), kind(p.z), dflt)),     # C09, first sentence (assumed here)
+                                                         rpbc != PBC.null)))                                       # CompilerResult invariant (C08 unit)
+            yield st, r
+        ENG.methods["compile"] = compile_
+        eng.contracts[_cp.CompilersPipeline.name.fget] = lambda e, st, a, k: iter([(st, Str.fresh("pipeline_name"))])
+
+        def result(e, st, a, k):
+            st.ghost["result_args"] = (a[0], a[1], k.get("plan_back_conversion"))
+            yield st, RES.fresh("pipeline_result")
+        eng.contracts[_cp.CompilerResult] = result
+        eng.contracts[_cp.partial] = lambda e, st, a, k: iter([(st, FN.fresh("composed"))])
+
+        def inv(L):
+            i = zint(L._i)
+            kinds, n = unit._kinds, unit._comps.n
+            kind = B._uf("Problem09.kind", PROB.z3sort(), _K)
+            mbs, pbcs = L.seq("map_back_functions", MB), L.seq("plan_back_conversions", PBC)
+            j = z3.Int(fresh_name("j"))
+            newp = L.new_problem
+            return [("the problem handed to the next stage is of a kind within the kind declared for that stage",
+                     z3.And(newp.z != PROB.null, z3.Implies(i < n, SUBKIND(kind(newp.z), kinds.at(B.SInt(i)).z)))),
+                    ("one way back per stage so far", z3.And(mbs.n == i, pbcs.n == i)),
+                    ("every stage so far can convert plans back", z3.ForAll([j], z3.Implies(z3.And(0 <= j, j < i), pbcs.at(B.SInt(j)).z != PBC.null)))]
+        eng.loops[(QN_PC, 0)] = LoopSpec(inv, modifies=["engine", "res", "new_problem", "map_back_functions", "plan_back_conversions"],
+                                         types={"engine": ENG, "res": RES, "new_problem": PROB, "map_back_functions": Seq(MB), "plan_back_conversions": Seq(PBC)})
+
+    def setup(self, eng, st):
+        comps = eng.fresh_of(st, Seq(ENG), "compilers")
+        kinds = eng.fresh_of(st, Seq(PK), "declared_kinds")
+        cks = eng.fresh_of(st, Seq(CK), "compilation_kinds")
+        p = PROB.fresh("problem")
+        kind = B._uf("Problem09.kind", PROB.z3sort(), _K)
+        pk0 = PK.wrap(kind(p.z))
+        st.assume(p.z != PROB.null, kinds.n == comps.n, cks.n == comps.n)
+        fac = st.alloc(Rec(_fa.Factory, {}), "factory")
+        for nm, f in chain_facts(eng, st, fac, comps, kinds, cks, pk0, comps.n):     # what Factory._get_engine guarantees (previous unit)
+            st.assume(f)
+        self._comps, self._kinds = comps, kinds
+        w = st.alloc(Rec(_cp.CompilersPipeline, {"_compilers": st.alloc(comps, "list")}), "pipeline")
+        return [w, p], {}, dict(p=p)
+
+    def post(self, eng, ctx, st, out):
+        if out[0] != "return":
+            return
+        ra = st.ghost.get("result_args")
+        if ra is None:
+            st.oblige("a CompilerResult is built", z3.BoolVal(False))
+            return
+        prob, mb, pbc = ra
+        if prob is None:
+            st.oblige("a result without a problem carries no way back", z3.BoolVal(mb is None and pbc is None))
+            return
+        st.oblige("a result with a problem carries exactly one way back (action map or plan conversion)", z3.BoolVal((mb is None) != (pbc is None)))
+
+
+UNITS = [EngineSatisfiesConditions(), GetEngineClass(), GetEnginePipeline(), PipelineCompile()]
 LEVEL = "exploration"
 EXPLANATION = __doc__
